@@ -86,8 +86,11 @@ RichF1(syn, pkg) ==
        \o (IF p3 THEN << >> ELSE << XExt("zx", 0, 100, sing, Rel(<<"m">>), TScalar("int32")),
                                      XExt("zy", 1, 101, "repeated", Abs(pkg \o <<"m">>), TRef(Rel(<<"b">>))) >>)
        \o << XVal("zd", 9, 1) >>
-       \o (IF syn = "proto2" THEN XGroup("Zg", 1, 9, "optional", 18) \o << XFld("zf", 18, 1, "optional", TScalar("int32")) >>
-           ELSE << >>))
+       \o (IF syn = "proto2"
+             THEN LET grp == XGroup("Zg", 1, 9, "optional", 18)      \* a group body is a message body: ranges allowed
+                  IN << [grp[1] EXCEPT !.rr = << <<3, 4>> >>, !.xr = << <<100, 100>> >>], grp[2] >>
+                     \o << XFld("zf", 18, 1, "optional", TScalar("int32")) >>
+             ELSE << >>))
 (* option bases: f1 imports descriptor.proto, declares option extensions and uses them *)
 OptF1(syn, pkg) ==
   LET sing == Singular(syn)
